@@ -21,8 +21,8 @@ ASSUMPTIONS = [
     "array elements strictly increasing (the documented precondition); NaN/inf inputs excluded",
 ]
 BOUNDS = {
-    "quick": dict(array_length="1..6 (scalar), 1..4 (vector)", vector_queries="1..2", hermite_data_shapes="scalar, (2,)"),
-    "thorough": dict(array_length="1..7 (scalar and vector)", vector_queries="1..3", hermite_data_shapes="scalar, (2,), (2,2)"),
+    "quick": dict(array_length="1..6 (scalar), 1..4 (vector)", vector_queries="1..2", hermite_data_shapes="scalar, (2,), (2,2), (4,1)"),
+    "thorough": dict(array_length="1..7 (scalar and vector)", vector_queries="1..3", hermite_data_shapes="scalar, (2,), (2,2), (4,1), (4,2), (3,4)"),
 }
 OUTSIDE = ["IEEE rounding of the Hermite basis evaluation", "arrays longer than the bound", "non-increasing arrays"]
 
@@ -42,7 +42,8 @@ def instances(tier):
             else:
                 b = dict(wall_s=120, max_paths=3000)
             out.append(dict(id="bisectvec-n%d-m%d" % (n, m), kind="bisectvec", n=n, m=m, budget=b))
-    shapes = [(), (2,)] if tier == "quick" else [(), (2,), (2, 2)]
+    # matrix-valued data too (a leading dimension of 4 coincides with the number of Hermite basis functions)
+    shapes = [(), (2,), (2, 2), (4, 1)] if tier == "quick" else [(), (2,), (2, 2), (4, 1), (4, 2), (3, 4)]
     for sh in shapes:
         for param in ("endpoints", "width"):
             out.append(dict(id="hermite-%s-%s" % ("x".join(map(str, sh)) or "scalar", param), kind="hermite", shape=list(sh), param=param,
